@@ -3,35 +3,106 @@ package gqlgen
 import (
 	"errors"
 	"math"
+	"math/big"
 	"strconv"
 
 	"verifharness/hx"
 )
 
 // GoVal is a leaf value a resolver returns (also the Go value of an enum value).
+//
+// Kind "int" covers every Go integer type: IntKind names it ("" = "int"); signed values are in Int,
+// values of the unsigned kinds in Uint. Kind "float" is a finite float64, or a float32 when FloatKind
+// is "float32" (Float then holds a value exactly representable as float32).
 type GoVal struct {
-	Kind  string  `json:"kind"` // int | float | str | bool | wrong
-	Int   int64   `json:"int,omitempty"`
-	Float float64 `json:"float,omitempty"` // always finite; exactly m·2^e
-	Str   string  `json:"str,omitempty"`
-	Bool  bool    `json:"bool,omitempty"`
+	Kind      string  `json:"kind"` // int | float | str | bool | wrong
+	IntKind   string  `json:"int_kind,omitempty"`
+	Int       int64   `json:"int,omitempty"`
+	Uint      uint64  `json:"uint,omitempty"`
+	FloatKind string  `json:"float_kind,omitempty"`
+	Float     float64 `json:"float,omitempty"` // always finite; exactly m·2^e
+	Str       string  `json:"str,omitempty"`
+	Bool      bool    `json:"bool,omitempty"`
 }
 
-func IntVal(z int64) GoVal     { return GoVal{Kind: "int", Int: z} }
-func FloatVal(f float64) GoVal { return GoVal{Kind: "float", Float: f} }
+func IntVal(z int64) GoVal     { return GoVal{Kind: "int", IntKind: "int", Int: z} }
+func FloatVal(f float64) GoVal { return GoVal{Kind: "float", FloatKind: "float64", Float: f} }
 func StrVal(s string) GoVal    { return GoVal{Kind: "str", Str: s} }
 func BoolVal(b bool) GoVal     { return GoVal{Kind: "bool", Bool: b} }
 func WrongVal() GoVal          { return GoVal{Kind: "wrong"} }
+
+// Float32Val is a float32 value.
+func Float32Val(f float32) GoVal {
+	return GoVal{Kind: "float", FloatKind: "float32", Float: float64(f)}
+}
+
+// IntKinds lists the Go integer kinds.
+var IntKinds = []string{"int8", "uint8", "int16", "uint16", "int32", "uint32", "int64", "uint64", "int", "uint"}
+
+// IsUnsignedKind reports whether the integer kind is unsigned.
+func IsUnsignedKind(k string) bool { return len(k) > 0 && k[0] == 'u' }
+
+// SignedVal is a value of a signed integer kind (the caller keeps it within the kind's range).
+func SignedVal(kind string, z int64) GoVal { return GoVal{Kind: "int", IntKind: kind, Int: z} }
+
+// UnsignedVal is a value of an unsigned integer kind (the caller keeps it within the kind's range).
+func UnsignedVal(kind string, u uint64) GoVal { return GoVal{Kind: "int", IntKind: kind, Uint: u} }
+
+// Canon fills in the defaults of the kind fields (older replay files have none).
+func (g GoVal) Canon() GoVal {
+	if g.Kind == "int" && g.IntKind == "" {
+		g.IntKind = "int"
+	}
+	if g.Kind == "float" && g.FloatKind == "" {
+		g.FloatKind = "float64"
+	}
+	return g
+}
+
+// Same reports whether two values are the same Go value (`==` on interface{}: same type, same value).
+func (g GoVal) Same(h GoVal) bool { return g.Canon() == h.Canon() }
+
+// BigInt returns the integer a Kind "int" value denotes.
+func (g GoVal) BigInt() *big.Int {
+	if IsUnsignedKind(g.Canon().IntKind) {
+		return new(big.Int).SetUint64(g.Uint)
+	}
+	return big.NewInt(g.Int)
+}
 
 // wrongKind is a Go value no result coercer accepts.
 type wrongKind struct{}
 
 // Go returns the Go value handed to the library.
 func (g GoVal) Go() interface{} {
+	g = g.Canon()
 	switch g.Kind {
 	case "int":
+		switch g.IntKind {
+		case "int8":
+			return int8(g.Int)
+		case "uint8":
+			return uint8(g.Uint)
+		case "int16":
+			return int16(g.Int)
+		case "uint16":
+			return uint16(g.Uint)
+		case "int32":
+			return int32(g.Int)
+		case "uint32":
+			return uint32(g.Uint)
+		case "int64":
+			return g.Int
+		case "uint64":
+			return g.Uint
+		case "uint":
+			return uint(g.Uint)
+		}
 		return int(g.Int)
 	case "float":
+		if g.FloatKind == "float32" {
+			return float32(g.Float)
+		}
 		return g.Float
 	case "str":
 		return g.Str
@@ -56,14 +127,15 @@ func Dyadic(f float64) (int64, int64) {
 	return m, e
 }
 
-// Sexp encodes the value for the Lean drivers: (i z) | (f m e) | (s "…") | (b true|false) | (w).
+// Sexp encodes the value for the Lean drivers: (i kind z) | (f kind m e) | (s "…") | (b true|false) | (w).
 func (g GoVal) Sexp() hx.Sexp {
+	g = g.Canon()
 	switch g.Kind {
 	case "int":
-		return hx.N("i", hx.I(g.Int))
+		return hx.N("i", hx.A(g.IntKind), hx.A(g.BigInt().String()))
 	case "float":
 		m, e := Dyadic(g.Float)
-		return hx.N("f", hx.I(m), hx.I(e))
+		return hx.N("f", hx.A(g.FloatKind), hx.I(m), hx.I(e))
 	case "str":
 		return hx.N("s", hx.A(g.Str))
 	case "bool":
@@ -73,11 +145,12 @@ func (g GoVal) Sexp() hx.Sexp {
 }
 
 func (g GoVal) String() string {
+	g = g.Canon()
 	switch g.Kind {
 	case "int":
-		return strconv.FormatInt(g.Int, 10)
+		return g.IntKind + "(" + g.BigInt().String() + ")"
 	case "float":
-		return strconv.FormatFloat(g.Float, 'g', -1, 64) + "f"
+		return g.FloatKind + "(" + strconv.FormatFloat(g.Float, 'g', -1, 64) + ")"
 	case "str":
 		return strconv.Quote(g.Str)
 	case "bool":
